@@ -1,5 +1,7 @@
 import Hive.Proofs.SerixCanonical
 import Hive.Proofs.SerixPrim
+import Hive.Gen.C03_Consts
+import Hive.Gen.C03_Skel
 /-!
 # C03 — the wire format is fixed; validated decoding accepts only canonical bytes
 
@@ -418,6 +420,58 @@ theorem C03_prim_example :
      mustOccurOk { mustOccur := [100, 101] } e [.alt 100 (.l []), .alt 100 (.l [])] = .err ∧
      mustOccurOk { mustOccur := [100, 101] } e [.alt 101 (.l []), .alt 100 (.l []), .alt 100 (.l [])] = .ok ()) := by
   decide
+
+/-! ## Regenerated facts (extracted from the working tree on every run by `checks/c03.py`) -/
+
+section Regenerated
+open Hive.Gen.C03Consts Hive.Gen.C03Skel
+
+/-- The byte sizes of serializer/consts.go are the widths the model uses: numbers 1/2/4/8, uint256 32 bytes, type codes
+4 bytes (`TypeDenotationUint32`) or 1 byte (`TypeDenotationByte`), the optional-field / payload length marker 4
+bytes; the saturation threshold of the time codec is `MaxInt64 / 10^9` seconds. -/
+theorem C03_const_sizes :
+    c_OneByte = 1 ∧ c_UInt16ByteSize = 2 ∧ c_Int16ByteSize = 2 ∧ c_UInt32ByteSize = 4 ∧ c_Int32ByteSize = 4 ∧
+    c_Float32ByteSize = 4 ∧ c_UInt64ByteSize = 8 ∧ c_Int64ByteSize = 8 ∧ c_Float64ByteSize = 8 ∧
+    c_UInt256ByteSize = 32 ∧ c_TypeDenotationByteSize = Den.u32.width ∧ c_SmallTypeDenotationByteSize = Den.u8.width ∧
+    c_PayloadLengthByteSize = 4 ∧ c_MinPayloadByteSize = 5 ∧ c_MaxNanoTimestampInt64Seconds = maxSec := by
+  decide
+
+/-- Mode bits: validation and lexical ordering are different bits of `DeSerializationMode`; the four array validation
+modes are the bits 1, 2, 4, 8 that `ElementValidationFunc` walks in this order (no-duplicates, lexical order, type
+byte, type word — the order of `vErr`). -/
+theorem C03_const_modes :
+    c_DeSeriModeNoValidation = 0 ∧ c_DeSeriModePerformValidation = 1 ∧ c_DeSeriModePerformLexicalOrdering = 2 ∧
+    c_ArrayValidationModeNone = 0 ∧ c_ArrayValidationModeNoDuplicates = 1 ∧ c_ArrayValidationModeLexicalOrdering = 2 ∧
+    c_ArrayValidationModeAtMostOneOfEachTypeByte = 4 ∧ c_ArrayValidationModeAtMostOneOfEachTypeUint32 = 8 ∧
+    c_TypeDenotationUint32 = 0 ∧ c_TypeDenotationByte = 1 ∧ c_TypeDenotationNone = 2 := by
+  decide
+
+/-- serix casts its `LengthPrefixType` to the serializer's `SeriLengthPrefixType`: the codes must coincide pairwise,
+be pairwise different and fit a byte. -/
+theorem C03_const_prefix_types :
+    c_LengthPrefixTypeAsByte = c_SeriLengthPrefixTypeAsByte ∧ c_LengthPrefixTypeAsUint16 = c_SeriLengthPrefixTypeAsUint16 ∧
+    c_LengthPrefixTypeAsUint32 = c_SeriLengthPrefixTypeAsUint32 ∧ c_LengthPrefixTypeAsUint64 = c_SeriLengthPrefixTypeAsUint64 ∧
+    [c_SeriLengthPrefixTypeAsByte, c_SeriLengthPrefixTypeAsUint16, c_SeriLengthPrefixTypeAsUint32,
+      c_SeriLengthPrefixTypeAsUint64].Nodup ∧ c_SeriLengthPrefixTypeAsUint64 < 256 := by
+  decide
+
+/-- The chain objects have exactly the state the model gives them (`Ser`: buffer and error; `De`: source, offset and
+error), and `ArrayRules` the fields the schema's `Rules` mirror. -/
+theorem C03_skeleton_type_chains :
+    skel_type_Serializer = ["struct", "buf bytes.Buffer", "err error"] ∧
+    skel_type_Deserializer = ["struct", "src []byte", "offset int", "err error"] ∧
+    skel_type_ArrayRules = ["struct", "Min uint", "Max uint", "MustOccur TypePrefixes", "Guards SerializableGuard",
+      "ValidationMode ArrayValidationMode"] ∧
+    skel_type_TypePrefixes = ["map[uint32]struct{}"] := by
+  decide
+
+theorem C03_skeleton_type_codes :
+    skel_type_SeriLengthPrefixType = ["byte"] ∧ skel_type_DeSerializationMode = ["byte"] ∧
+    skel_type_ArrayValidationMode = ["byte"] ∧ skel_type_TypeDenotationType = ["byte"] ∧
+    skel_type_LengthPrefixType = ["serializer.SeriLengthPrefixType"] := by
+  decide
+
+end Regenerated
 
 /-! ## Non-vacuity of `C03_canonical` -/
 
